@@ -12,6 +12,7 @@ func init() {
 		Rules: append(writerRules("W1", "W2", "W3", "W4", "W5", "W8"),
 			RuleDef{Name: "CUR-WRITE", What: "Writer.Write: bytes copied advance the source slice, the block cursor and the returned count together; the copy lands at the cursor", Floor: 1, Run: ruleCurWrite},
 			RuleDef{Name: "OWN-WRITE-ARG", What: "Writer.Write only measures, reslices and copies from its argument (shared with C08)", Floor: 1, Run: ruleWriteArgOwned},
+			RuleDef{Name: "SHARED-STATE", What: "package bgzf keeps no state that one Writer or Reader writes and another reads (shared with C08): a round trip does not depend on what other writers and readers of the process did", Floor: 8, Run: ruleSharedState([]string{"bgzf"})},
 			RuleDef{Name: "POOL-BARE", What: "every decompressor sent to the read-ahead pool is new or had its block taken by wait() (void if the worker tests the error before deriving the next offset); added after seed C01-d", Floor: 4, Run: rulePoolBare},
 			RuleDef{Name: "CUR-COUNT", What: "countReader.off advances by exactly what was consumed (Read, ReadByte, seek)", Floor: 3, Run: ruleCurCount},
 			bgzfConst, bsize,
@@ -27,12 +28,15 @@ func init() {
 		ID: "C08", Title: "BGZF output is spec-conformant, gzip-compatible, deterministic and EOF-marked", Level: "other",
 		Rules: append([]RuleDef{bgzfConst, bsize, fextra, hasEOF,
 			{Name: "OWN-WRITE-ARG", What: "Writer.Write only measures, reslices and copies from its argument; no slice of the caller's buffer is stored, sent or captured (added after a blind second seed round)", Floor: 1, Run: ruleWriteArgOwned},
+			{Name: "SHARED-STATE", What: "package bgzf keeps no state that one Writer or Reader writes and another reads: every package-level variable is read-only, or an object pool whose objects are reset between instances (added after tenth-round seed C08-l: compressor buffers recycled through a sync.Pool as they were left)", Floor: 8,
+				Run:    ruleSharedState([]string{"bgzf"}),
+				Canary: func(cc *Ctx, r *Rep) { ruleSharedState([]string{"poolc"})(cc, r, "") }, WantFail: []string{"poolc.dirtyPool#shared-state", "poolc.seen#shared-state"}, WantPassMin: 3},
 			{Name: "FLUSH-CUTS", What: "Writer.Flush answers nil without cutting a block only when the active block is empty: which writes start a member does not depend on the queue's length, hence not on wc or the destination's speed (added after ninth-round seed C08-i)", Floor: 1, Run: ruleFlushCuts},
 			{Name: "LATCH-ONE", What: "the error Writer.Close tests before it appends the EOF marker is the state setErr records (the same field, or Error()): the marker is written iff no write failed (added after ninth-round seed C08-j: the latch moved to an atomic.Value, Close still read the old field)", Floor: 1, Run: ruleLatchOne},
 			{Name: "FIELD-NEVER-SET", What: "every error field of package bgzf that is read is assigned a non-nil value somewhere: the latch Close consults before it writes the EOF marker is the one failures are recorded in (added after ninth-round seed C08-j)", Floor: 3, Run: ruleFieldNeverSet([]string{"bgzf"})},
 		}, writerRules("W4", "W5", "W6", "W8", "W9")...),
 		Explanation: "TAB-BGZF/TAB-FEXTRA/BIT-BSIZE: every member carries the BC subfield first, with BSIZE = length−1 written under a guard that rejects members of 64 KiB or more, payload bounded by the array type; W4: only the single emitter (and Close after it finished) writes to the underlying writer, each block by one copy of a complete member, so the stream is a concatenation of whole members independent of the number of compressors; W6: the marker is written once, only by Close, only if no error was latched, after the emitter finished; W9: nothing follows a failed block; PATH-HASEOF: HasEOF compares exactly the trailing 28 bytes.",
-		NotDecided:  "that compress/gzip emits RFC 1952 (trusted); the bytes.Index search for the BC prefix over the whole member (a ModTime of 42 43 02 00 would be matched first) – value-level.",
+		NotDecided:  "that compress/gzip emits RFC 1952 (trusted); the compressed payload itself.",
 		Assumptions: []string{"compress/gzip is RFC 1952 conformant"},
 	})
 	register(&PropDef{
